@@ -1,6 +1,6 @@
 (* C06 — Insertion evaluation agrees with brute-force simulation. *)
 From VRP Require Import Base.Tac Model.Core Spec.Feasible Model.Eval Proofs.CoreTimeP Proofs.CoreCapP Proofs.CoreEvalP Proofs.CoreMultiP
-  Proofs.CoreScanP Proofs.CoreScanCompleteP.
+  Proofs.CoreScanP Proofs.CoreScanCompleteP Proofs.CoreRouteLevelP.
 
 (* exhaustive best-insertion mode (LegSelection::Exhaustive, any objective estimate `est`, any route-level cost), closed tours,
    single-task jobs with one place and one time window, constrained by time windows / shift end / capacity:
@@ -19,6 +19,21 @@ Theorem C06_scan_complete_closed : forall dur est v t j p w rc,
   (forall pl, sc_place r = Some pl ->
      feasible dur v (insert_after t (sc_index r) (target t j p w (sc_index r))) = true /\ pl = pdata t j p w (sc_index r)).
 Proof. exact scan_complete_closed. Qed.
+
+(* the same for the whole evaluation of a single job (route-level pre-checks of both features + scan), pure static demand
+   (delivery only, pickup only or none): exhaustive mode reports failure only when the simulation finds no feasible position,
+   and the position it returns is a feasible one *)
+Theorem C06_eval_single_complete_closed : forall dur est rc v shift_start t j p w k,
+  s_places j = [p] -> p_tws p = [w] ->
+  (forall a b, 0 <= dur a b) -> 0 <= p_svc p -> 0 <= v_cap v ->
+  sched_ok dur t -> feasible dur v t = true ->
+  Forall (fun a => a_tws a <= v_shift_end v) t -> fst w <= v_shift_end v -> shift_start <= snd w ->
+  (forall d, d_change (a_dem (hd d t)) = 0) -> 0 <= start_delivery t -> pure_static (s_dem j) ->
+  (2 <= length t)%nat -> (k < length t - 1)%nat ->
+  feasible dur v (insert_after t k (target t j p w k)) = true ->
+  exists idx pl c, eval_single_gen dur est rc v shift_start true t j PAny = ESuccess idx pl c /\
+                   feasible dur v (insert_after t idx (target t j p w idx)) = true.
+Proof. exact eval_single_complete_closed. Qed.
 
 (* the cached latest-arrival value is exact: a feasible tail is feasible for another way of reaching it
    iff the arrival at its head is not later than `latest_of` *)
